@@ -24,7 +24,10 @@ META = {
     'assumptions': [],
 }
 
-VALUES = [0.1, 0.35, 0.8]
+# 0.3500014 is 4 parts in 1e6 away from 0.35 (a nudge is an assignment, not a no-op); 0.3141592653589793 and 1.122462048309373
+# have means that are not multiples of any decimal step; 1e-9 / 5e-9: a trace component; 0.0: zero is a value
+VALUES = [0.1, 0.35, 0.8, 0.3500014, 0.3141592653589793, 1.122462048309373, 1e-9, 5e-9, 0.0]
+NSEQ_VALUES = 4                 # the sequences without deduplication use the first 3 (quick) / 4 (thorough) values; the BFS all of them (first 5 for four types in quick)
 ALLTYPES = ['A', 'B', 'C', 'D']
 
 
@@ -33,10 +36,10 @@ def pp():
     return pyPRISM
 
 
-def ops_for(types, extra=()):
+def ops_for(types, extra=(), nvalues=None):
     ops = []
     for t in types:
-        for v in VALUES + list(extra):
+        for v in VALUES[:nvalues] + list(extra):
             ops.append([t, v])
     for r in range(2, len(types) + 1):
         for c in itertools.combinations(types, r):
@@ -147,8 +150,8 @@ def report(rec, kind, types, hist, probs):
         rec.fail(case, '%s%s after %s: %s' % (kind, types, hist, msg), tags={'kind': k, 'class': kind}, repro=s)
 
 
-def bfs(rec, kind, types, extra, max_states=20000):
-    ops = ops_for(types, extra)
+def bfs(rec, kind, types, extra, max_states=20000, nvalues=None):
+    ops = ops_for(types, extra, nvalues)
     obj = build(kind, types)
     model = {t: None for t in types}
     probs = invariant(kind, obj, model, types)
@@ -191,8 +194,8 @@ def bfs(rec, kind, types, extra, max_states=20000):
     return not capped
 
 
-def seqs(rec, kind, types, first, depth, extra):
-    ops = ops_for(types, extra)
+def seqs(rec, kind, types, first, depth, extra, nvalues=NSEQ_VALUES):
+    ops = ops_for(types, extra, nvalues)
     obj0 = build(kind, types)
     model0 = step(obj0, {t: None for t in types}, types, first)
 
@@ -224,7 +227,56 @@ def seqs(rec, kind, types, first, depth, extra):
     dfs(obj0, model0, [first])
 
 
+def two_objects(rec, kind, types, depth, only=None):
+    """Two live objects whose type lists hold the same names in different order (X: types, Y: rotated): all interleaved
+    assignment histories up to `depth`; after every step both objects satisfy the invariant for their own history."""
+    tX, tY = list(types), list(types[1:]) + list(types[:1])
+    ops = [[w, t, v] for w in ('X', 'Y') for t in types for v in (0.1, 0.8)]
+
+    def run_hist(hist):
+        X, Y = build(kind, tX), build(kind, tY)
+        mX, mY = {t: None for t in tX}, {t: None for t in tY}
+        for n, (w, t, v) in enumerate(hist):
+            try:
+                if w == 'X':
+                    mX = step(X, mX, tX, [t, v])
+                else:
+                    mY = step(Y, mY, tY, [t, v])
+                probs = [(k, 'object X%s: %s' % (tX, m)) for k, m in invariant(kind, X, mX, tX)] + \
+                        [(k, 'object Y%s: %s' % (tY, m)) for k, m in invariant(kind, Y, mY, tY)]
+            except Exception as e:
+                probs = [('raises', 'assignment %r raised %s: %s' % ((w, t, v), type(e).__name__, str(e)[:80]))]
+            rec.trans()
+            if probs:
+                for k, msg in probs[:2]:
+                    rec.fail({'kind': kind, 'two': True, 'types': types, 'ops': hist[:n + 1]},
+                             'two live %s objects, interleaved history %s: %s' % (kind, hist[:n + 1], msg), tags={'kind': k, 'class': kind, 'two': True})
+                return False
+        return True
+
+    if only is not None:
+        run_hist(only)
+        return
+    rec.state()
+    bad_prefixes = set()
+    for d in range(1, depth + 1):
+        for hist in itertools.product(range(len(ops)), repeat=d):
+            if any(hist[:j] in bad_prefixes for j in range(1, d)):
+                continue
+            if run_hist([ops[i] for i in hist]):
+                if d == depth:
+                    rec.trace()
+            else:
+                bad_prefixes.add(hist)
+    rec.outcome(core.digest(repr(('two', kind, types, depth))))
+
+
 def replay(rec, case):
+    if case.get('two'):
+        with warnings.catch_warnings():
+            warnings.simplefilter('ignore')
+            two_objects(rec, case['kind'], list(case['types']), len(case['ops']), only=[list(o) for o in case['ops']])
+        return
     with warnings.catch_warnings():
         warnings.simplefilter('ignore')
         kind, types = case['kind'], list(case['types'])
@@ -251,12 +303,15 @@ def _worker(item):
     rec = Rec('C15')
     with warnings.catch_warnings():
         warnings.simplefilter('ignore')
-        if item[0] == 'bfs':
-            _, kind, types, extra = item
-            bfs(rec, kind, types, extra)
+        if item[0] == 'two':
+            _, kind, types, depth = item
+            two_objects(rec, kind, types, depth)
+        elif item[0] == 'bfs':
+            _, kind, types, extra, nv = item
+            bfs(rec, kind, types, extra, nvalues=nv)
         else:
-            _, kind, types, first, depth, extra = item
-            seqs(rec, kind, types, first, depth, extra)
+            _, kind, types, first, depth, extra, nv = item
+            seqs(rec, kind, types, first, depth, extra, nv)
     return rec.to_dict()
 
 
@@ -270,13 +325,17 @@ def run(rec, tier, seed):
     for kind in ('Density', 'Diameter'):
         for n in (1, 2, 3, 4):
             types = ALLTYPES[:n]
-            items.append(('bfs', kind, types, extra))
-            for op in ops_for(types, extra):
-                items.append(('seq', kind, types, op, sdepth[n], extra))
+            items.append(('bfs', kind, types, extra, 5 if (n == 4 and tier == 'quick') else None))
+            nsv = 3 if tier == 'quick' else NSEQ_VALUES
+            for op in ops_for(types, extra, nsv):
+                items.append(('seq', kind, types, op, sdepth[n], extra, nsv))
+        for n, d in ((2, 4 if tier == 'quick' else 6), (3, 3 if tier == 'quick' else 4)):
+            items.append(('two', kind, ALLTYPES[:n], d))
     core.pmap(_worker, items, rec, chunksize=1)
     fix = all(v.get('fixpoint', True) for k, v in rec.notes.items() if k.startswith('bfs_'))
     rec.note('fixpoint', fix)
     rec.note('alphabets', {'values': VALUES + extra, 'ops_by_n': {n: len(ops_for(ALLTYPES[:n], extra)) for n in (1, 2, 3, 4)}})
-    rec.note('bounds', {'undeduplicated_sequence_depth_by_n': sdepth, 'bfs': 'to fixpoint'})
+    rec.note('bounds', {'undeduplicated_sequence_depth_by_n': sdepth, 'bfs': 'to fixpoint', 'values_in_sequences': VALUES[:NSEQ_VALUES],
+                        'two_object_interleavings': 'n=2 depth %d, n=3 depth %d' % ((4, 3) if tier == 'quick' else (6, 4))})
     rec.sample({'kind': 'Density', 'types': ['A', 'B', 'C'], 'ops': [['A', 0.1], [['B', 'C'], 0.35], ['A', 0.8]]})
     rec.sample({'kind': 'Diameter', 'types': ['A', 'B'], 'ops': [[['B', 'A'], 0.8], ['B', 0.1]]})
